@@ -272,6 +272,11 @@ class UpdateCSR(EFMethod):
                                       cx.arr('this._phasespace._data') == cx.old.arr('this._phasespace._data'),
                                       cx.arr('this._impedance._data', 're') == cx.old.arr('this._impedance._data', 're')))]
 
+    def bounded_defs(self, cx, K):
+        nmax = cx.f('this._nmax', 'u64')
+        n = cx.g('n')
+        return [models.unfold_sumscaled(cx.arr('this._csrspectrum'), n * nmax, cx.rf('this._axis_freq._delta'), I(k)) for k in range(K + 1)]
+
     def _frame(self, cx):
         return [('frame', And(cx.arr('this._phasespace._projection') == cx.old.arr('this._phasespace._projection'),
                               cx.arr('this._phasespace._data') == cx.old.arr('this._phasespace._data'),
